@@ -501,6 +501,7 @@ func (s *scope) createInstance(descriptor *Descriptor) (any, error) {
 		}
 
 		s.setInstance(descriptor, key, instance)
+		s.shareWithAliases(descriptor, instance)
 		return instance, nil
 	}
 
@@ -646,15 +647,20 @@ func (s *scope) createInstance(descriptor *Descriptor) (any, error) {
 
 	s.setInstance(descriptor, key, instance)
 
-	// The other interfaces of the same registration share this instance, as far
-	// as this provider's snapshot of the registrations still holds them
+	s.shareWithAliases(descriptor, instance)
+
+	return instance, nil
+}
+
+// shareWithAliases stores the instance under the other interfaces of the same
+// registration, as far as this provider's snapshot of the registrations still
+// holds them.
+func (s *scope) shareWithAliases(descriptor *Descriptor, instance any) {
 	for _, alias := range descriptor.aliases {
 		if alias != descriptor && s.rootProvider.holds(alias) {
 			s.shareInstance(alias, instanceKey{Type: alias.Type, Key: alias.Key, Group: alias.Group}, instance)
 		}
 	}
-
-	return instance, nil
 }
 
 // outputDescriptor returns the descriptor that the registration of the given
